@@ -1,0 +1,40 @@
+//go:build verif
+
+package auth
+
+// Contracts for /verif (contract-based deductive verification of the real
+// code). Comment-only: this file contains no code and is only visible with
+// the build tag "verif". Syntax: /verif/DESIGN.md section 2.
+//
+//@ func (*Auth).LoginPost
+//@   property C01 C02 C03 C04 C18
+//@
+//@   -- C01: a session is written only after the hasher accepted the submitted
+//@   -- password against the password of the user that was loaded under that pid
+//@   ensures[C01] session_guard: each Sess.Put("uid", ?v) =>
+//@       before Hash.Compare(?h, ?pw) -> ?ce :: ce == nil &&
+//@       before Store.Load(?p) -> (?u, ?le) :: le == nil && p == v && h == Password(u) &&
+//@       before Body.Read("login") -> (?vals, ?re) :: re == nil && pw == val(vals, "GetPassword") && p == val(vals, "GetPID")
+//@   ensures[C01] halfauth_cleared: each Sess.Put("uid", _) => after Sess.Del("halfauth")
+//@   ensures[C01] only_uid_and_halfauth: each Sess.Put(?k, _) => k == "uid"
+//@
+//@   -- C02: the auth-hijack event (2FA interception) is fired, for the user being
+//@   -- logged in, and was neither handled nor failed
+//@   ensures[C02] hijack_fired: each Sess.Put("uid", ?v) =>
+//@       before Fire("Before", EventAuthHijack, ?cu, _, _) -> (?hd, ?e) :: hd == false && e == nil && PID(cu) == v
+//@
+//@   -- C03: the before-auth event (lock / confirm veto) was fired for that user
+//@   ensures[C03] login_veto: each Sess.Put("uid", ?v) =>
+//@       before Fire("Before", EventAuth, ?cu, _, _) -> (?hd, ?e) :: hd == false && e == nil && PID(cu) == v
+//@
+//@   -- C04: every credential failure is reported for the account attempted; a
+//@   -- correct password never is
+//@   ensures[C04] fail_reported: each Hash.Compare(_, _) -> ?ce => ce != nil ==>
+//@       after Fire("After", EventAuthFail, ?cu, _, _) :: before Store.Load(_) -> (?u, _) :: cu == u
+//@   ensures[C04] correct_not_failure: each Fire(_, EventAuthFail, _, _, _) =>
+//@       before Hash.Compare(_, _) -> ?ce :: ce != nil
+//@
+//@   -- C18: no panic under arbitrary backend answers; backend errors end in an error outcome
+//@   ensures[C18] no_panic: !panics
+//@   ensures[C18] load_error_outcome: each Store.Load(_) -> (_, ?le) => (le != nil && le != ErrUserNotFound) ==>
+//@       (result == le && !emits Respond(_, _, _) && !emits Redirect(_) && !emits Sess.Put(_, _))
